@@ -33,6 +33,7 @@ EXTENDS Boolability
 (* Conditions (uniform records so that they travel through JSON)           *)
 (*   kind: isinstance issubclass typeis typeguard is eq in truthy boolcall *)
 (*         len c_isinstance c_isvalue not and or                           *)
+(*         m_value m_singleton m_class m_or  (patterns of `match x:`)      *)
 (*   neg : the operator is the negated one (is not, !=, not in)            *)
 (***************************************************************************)
 Cnd(kind, cls, lits, t, op, n, neg, subs) ==
@@ -49,6 +50,11 @@ CBoolCall == Cnd("boolcall", << >>, << >>, Never, "", 0, FALSE, << >>)
 CLen(op, n) == Cnd("len", << >>, << >>, Never, op, n, FALSE, << >>)
 CLegacyIsinstance(c) == Cnd("c_isinstance", <<c>>, << >>, Never, "", 0, FALSE, << >>)
 CLegacyIsvalue(lit) == Cnd("c_isvalue", << >>, <<lit>>, Never, "", 0, FALSE, << >>)
+\* match x: case <pattern>: ... case _: ...   (value, singleton, class pattern without sub-patterns, or-pattern)
+CMatchValue(lit) == Cnd("m_value", << >>, <<lit>>, Never, "", 0, FALSE, << >>)
+CMatchSingleton(lit) == Cnd("m_singleton", << >>, <<lit>>, Never, "", 0, FALSE, << >>)
+CMatchClass(c) == Cnd("m_class", <<c>>, << >>, Never, "", 0, FALSE, << >>)
+CMatchOr(a, b) == Cnd("m_or", << >>, << >>, Never, "", 0, FALSE, <<a, b>>)
 CNot(a) == Cnd("not", << >>, << >>, Never, "", 0, FALSE, <<a>>)
 CAnd(a, b) == Cnd("and", << >>, << >>, Never, "", 0, FALSE, <<a, b>>)
 COr(a, b) == Cnd("or", << >>, << >>, Never, "", 0, FALSE, <<a, b>>)
@@ -75,7 +81,10 @@ B2C(b) == IF b THEN 1 ELSE 0
 
 RECURSIVE HoldsCode(_, _)
 HoldsCode(c, o) ==
-    CASE c.kind \in {"isinstance", "c_isinstance"} -> B2C(\E i \in 1..Len(c.cls) : IsInstance(o, c.cls[i]))
+    CASE c.kind \in {"isinstance", "c_isinstance", "m_class"} -> B2C(\E i \in 1..Len(c.cls) : IsInstance(o, c.cls[i]))
+      [] c.kind = "m_value" -> B2C(PyEq(o, c.lits[1]))              \* value pattern: subject == value
+      [] c.kind = "m_singleton" -> B2C(PyIs(o, c.lits[1]))          \* None / True / False: subject is value
+      [] c.kind = "m_or" -> B2C(\E i \in 1..Len(c.subs) : HoldsCode(c.subs[i], o) = 1)
       [] c.kind = "issubclass" -> IF o.c # "type" THEN 2 ELSE B2C(\E i \in 1..Len(c.cls) : IsSubclass(o.v, c.cls[i]))
       [] c.kind \in {"typeis", "typeguard"} -> B2C(Member(o, c.t))     \* the guard functions are written to test exactly their type
       [] c.kind \in {"is", "c_isvalue"} -> B2C(PyIs(o, c.lits[1]) # c.neg)
@@ -90,19 +99,19 @@ HoldsCode(c, o) ==
 \* the tested type of a condition (clause N2)
 RECURSIVE Tested(_)
 Tested(c) ==
-    CASE c.kind \in {"isinstance", "c_isinstance"} -> Union([i \in 1..Len(c.cls) |-> Typed(c.cls[i])])
+    CASE c.kind \in {"isinstance", "c_isinstance", "m_class"} -> Union([i \in 1..Len(c.cls) |-> Typed(c.cls[i])])
       [] c.kind = "issubclass" -> Union([i \in 1..Len(c.cls) |-> SubclassT(Typed(c.cls[i]))])
       [] c.kind \in {"typeis", "typeguard"} -> c.t
-      [] c.kind \in {"is", "eq", "in", "c_isvalue"} -> Union([i \in 1..Len(c.lits) |-> Known(c.lits[i])])
-      [] c.kind \in {"not", "and", "or"} -> Union([i \in 1..Len(c.subs) |-> Tested(c.subs[i])])
+      [] c.kind \in {"is", "eq", "in", "c_isvalue", "m_value", "m_singleton"} -> Union([i \in 1..Len(c.lits) |-> Known(c.lits[i])])
+      [] c.kind \in {"not", "and", "or", "m_or"} -> Union([i \in 1..Len(c.subs) |-> Tested(c.subs[i])])
       [] OTHER -> Never
 
 \* == / != / in: the property ranges over objects whose equality with the tested literals is type-respecting
 \* (no bool/int/float cross-type equality, no user-defined __eq__: classes A and B define one)
 RECURSIVE EqDomain(_, _)
 EqDomain(c, o) ==
-    CASE c.kind \in {"eq", "in"} -> o.c \notin {"A", "B"} /\ \A i \in 1..Len(c.lits) : PyEq(o, c.lits[i]) => o.c = c.lits[i].c
-      [] c.kind \in {"not", "and", "or"} -> \A i \in 1..Len(c.subs) : EqDomain(c.subs[i], o)
+    CASE c.kind \in {"eq", "in", "m_value"} -> o.c \notin {"A", "B"} /\ \A i \in 1..Len(c.lits) : PyEq(o, c.lits[i]) => o.c = c.lits[i].c
+      [] c.kind \in {"not", "and", "or", "m_or"} -> \A i \in 1..Len(c.subs) : EqDomain(c.subs[i], o)
       [] OTHER -> TRUE
 
 \* N1: an object of V for which the condition evaluates to the branch's polarity is still in the narrowed type R
@@ -117,15 +126,17 @@ RefNoWiden(V, c, R) ==
 (***************************************************************************)
 CONSTANT NBug     \* sensitivity self-test: "none", or the name of a plausible bug switched on in the model
 
-Pred(p, pat, ponly, lits, useis, op, n, ptype) ==
-    [p |-> p, pat |-> pat, ponly |-> ponly, lits |-> lits, useis |-> useis, op |-> op, n |-> n, ptype |-> ptype]
-NoPred == Pred("none", Never, FALSE, << >>, FALSE, "", 0, "")
-PAssignable(pat, ponly) == Pred("assignable", pat, ponly, << >>, FALSE, "", 0, "")
-PEquals(lit, useis) == Pred("equals", Never, FALSE, <<lit>>, useis, "", 0, "")
+Pred(p, pat, ponly, lits, useis, op, n, ptype, rt) ==
+    [p |-> p, pat |-> pat, ponly |-> ponly, lits |-> lits, useis |-> useis, op |-> op, n |-> n, ptype |-> ptype, rt |-> rt]
+NoPred == Pred("none", Never, FALSE, << >>, FALSE, "", 0, "", FALSE)
+PAssignable(pat, ponly) == Pred("assignable", pat, ponly, << >>, FALSE, "", 0, "", FALSE)
+\* isinstance(): with C02-fix-1 the predicate is told that the test is made on the run-time class (runtime_classes=True)
+PAssignableRt(pat) == Pred("assignable", pat, FALSE, << >>, FALSE, "", 0, "", "isinstance_runtime" \in NFixed)
+PEquals(lit, useis) == Pred("equals", Never, FALSE, <<lit>>, useis, "", 0, "", FALSE)
 \* pattern_type of an `in` test (name_check_visitor.py:3621): the common exact type of the tested values, else object
 PatternType(lits) == IF lits # << >> /\ \A i \in 1..Len(lits) : lits[i].c = lits[1].c THEN lits[1].c ELSE "object"
-PIn(lits) == Pred("in", Never, FALSE, lits, FALSE, "", 0, PatternType(lits))
-PLen(op, n) == Pred("len", Never, FALSE, << >>, FALSE, op, n, "")
+PIn(lits) == Pred("in", Never, FALSE, lits, FALSE, "", 0, PatternType(lits), FALSE)
+PLen(op, n) == Pred("len", Never, FALSE, << >>, FALSE, op, n, "", FALSE)
 
 \* concrete constraint (stacked_scopes.py:278 Constraint): ct = constraint_type
 Con(ct, pos, pred, cls, lit, t, subs) == [ct |-> ct, pos |-> pos, pred |-> pred, cls |-> cls, lit |-> lit, t |-> t, subs |-> subs]
@@ -189,7 +200,7 @@ ImplApply(ac) ==
 RECURSIVE ImplOfCond(_)
 ImplOfCond(c) ==
     CASE c.kind = "isinstance" ->        \* implementation.py:137 _isinstance_impl
-           ACon(ConPredicate(TRUE, PAssignable(ImplUnite([i \in 1..Len(c.cls) |-> Typed(c.cls[i])]), FALSE)))
+           ACon(ConPredicate(TRUE, PAssignableRt(ImplUnite([i \in 1..Len(c.cls) |-> Typed(c.cls[i])]))))
       [] c.kind = "issubclass" ->        \* implementation.py:113 _issubclass_impl
            ACon(ConPredicate(TRUE, PAssignable(ImplUnite([i \in 1..Len(c.cls) |-> SubclassT(Typed(c.cls[i]))]), FALSE)))
       [] c.kind = "typeis" -> ACon(ConPredicate(TRUE, PAssignable(c.t, FALSE)))             \* signature.py:732
@@ -202,6 +213,10 @@ ImplOfCond(c) ==
       [] c.kind = "len" -> ACon(ConPredicate(TRUE, PLen(c.op, c.n)))                        \* :3656 _constraint_from_predicate_provider
       [] c.kind = "c_isinstance" -> ACon(ConIsInstance(TRUE, c.cls[1]))                     \* implementation.py:186 (assert_is_instance)
       [] c.kind = "c_isvalue" -> ACon(ConIsValue(TRUE, c.lits[1]))                          \* implementation.py:1540 (assert_is)
+      [] c.kind = "m_value" -> ACon(ConPredicate(TRUE, PEquals(c.lits[1], FALSE)))          \* patma.py:188 visit_MatchValue
+      [] c.kind = "m_singleton" -> ACon(ConPredicate(TRUE, PEquals(c.lits[1], TRUE)))       \* patma.py:181 visit_MatchSingleton
+      [] c.kind = "m_class" -> ACon(ConPredicate(TRUE, PAssignable(Typed(c.cls[1]), TRUE))) \* patma.py:300 visit_MatchClass (no sub-patterns: positive_only)
+      [] c.kind = "m_or" -> OrMake([i \in 1..Len(c.subs) |-> ImplOfCond(c.subs[i])])        \* patma.py:391 visit_MatchOr
       [] c.kind = "not" -> ImplInvert(ImplOfCond(c.subs[1]))                                \* :3678 visit_UnaryOp
       [] c.kind = "and" -> AndMake(<<ImplOfCond(c.subs[2]), ImplOfCond(c.subs[1])>>)        \* :3463 (reversed(out_constraints))
       [] c.kind = "or" -> OrMake(<<ImplOfCond(c.subs[1]), ImplOfCond(c.subs[2])>>)          \* :3465 + extract_constraints (:1607)
@@ -223,14 +238,29 @@ RECURSIVE ImplUniversal(_, _)
 ImplUniversal(v, target) ==
     CASE v.k = "any" -> TRUE
       [] v.k = "union" -> \A i \in 1..Len(v.ms) : ImplUniversal(v.ms[i], target)     \* Never included
-      [] v.k = "typed" /\ v.c = "type" -> target.k = "subclass"
+      [] v.k = "typed" /\ v.c = "type" ->
+            \/ target.k = "subclass"
+            \/ /\ "issubclass_tuple" \in NFixed /\ target.k = "union" /\ target.ms # << >>       \* C02-fix-2
+               /\ \A i \in 1..Len(target.ms) : target.ms[i].k = "subclass"
       [] OTHER -> FALSE
 
 None == << >>
 Some(v) == <<v>>
 
+\* C02-fix-1, _remainder_after_runtime_check: what is left of v when isinstance(obj, pat) is false at run time
+PromotedTypes(c) == CASE c = "float" -> <<"int">> [] c = "complex" -> <<"float", "int">> [] OTHER -> << >>
+ImplRemainder(v, pat) ==
+    LET pats == IF pat.k = "union" THEN pat.ms ELSE <<pat>>
+        classes == {pats[i].c : i \in {j \in 1..Len(pats) : pats[j].k \in TypedFamily}}
+    IN CASE v.k = "known" -> IF \E c \in classes : IsInstance(v.o, c) THEN None ELSE Some(v)
+         [] v.k \in TypedFamily ->
+              IF ~\E c \in classes : IsSubclass(v.c, c) THEN Some(v)
+              ELSE LET rem == SelectSeq(PromotedTypes(v.c), LAMBDA t : ~\E c \in classes : IsSubclass(t, c))
+                   IN IF rem # << >> THEN Some(ImplUnite([i \in 1..Len(rem) |-> Typed(rem[i])])) ELSE None
+         [] OTHER -> None
+
 \* IsAssignablePredicate.__call__ (predicates.py:59)
-ImplAssignablePred(pos, pat, ponly, v) ==
+ImplAssignablePred(pos, pat, ponly, rt, v) ==
     LET compatible == ImplOverlapping(pat, v)
         asg == ImplCA(pat, v, FALSE)
         univ == ImplUniversal(v, pat)
@@ -238,7 +268,7 @@ ImplAssignablePred(pos, pat, ponly, v) ==
        THEN IF ~compatible THEN None
             ELSE IF asg THEN (IF univ THEN Some(pat) ELSE Some(v))
             ELSE Some(pat)
-       ELSE IF ~ponly /\ asg /\ ~univ THEN None
+       ELSE IF ~ponly /\ asg /\ ~univ THEN (IF rt THEN ImplRemainder(v, pat) ELSE None)
             ELSE Some(v)
 
 EnumMembers(c) == IF c = "Color" THEN <<RED, GREEN>> ELSE << >>
@@ -287,7 +317,7 @@ ImplLenPred(pos, op, n, v) ==
     IN IF lv.known /\ ~Cmp(lv.n, IF pos THEN op ELSE NegOp(op), n) THEN None ELSE Some(v)
 
 ImplPred(pred, pos, v) ==
-    CASE pred.p = "assignable" -> ImplAssignablePred(pos, pred.pat, pred.ponly, v)
+    CASE pred.p = "assignable" -> ImplAssignablePred(pos, pred.pat, pred.ponly, pred.rt, v)
       [] pred.p = "equals" -> ImplEqualsPred(pos, pred.lits[1], pred.useis, v)
       [] pred.p = "in" -> ImplInPred(pos, pred.lits, pred.ptype, v)
       [] pred.p = "len" -> ImplLenPred(pos, pred.op, pred.n, v)
@@ -347,11 +377,15 @@ ImplNarrow(V, c, pol) == ImplNarrowAC(V, ImplOfCond(c), pol)
 (***************************************************************************)
 (* Known deviations of the current code (see known_findings.jsonl)          *)
 (***************************************************************************)
-RECURSIVE CondMentions(_, _), CondHasKind(_, _)
+RECURSIVE CondMentions(_, _), CondHasKind(_, _), CondTestsParametrised(_)
+\* the condition is a TypeIs test against a parametrised generic / tuple shape
+CondTestsParametrised(c) ==
+    \/ c.kind = "typeis" /\ c.t.k \in {"generic", "seq"}
+    \/ \E i \in 1..Len(c.subs) : CondTestsParametrised(c.subs[i])
 CondHasKind(c, kinds) == c.kind \in kinds \/ \E i \in 1..Len(c.subs) : CondHasKind(c.subs[i], kinds)
 \* the condition tests against class cls (isinstance / issubclass / TypeIs / class constraint)
 CondMentions(c, cls) ==
-    \/ c.kind \in {"isinstance", "issubclass", "c_isinstance"} /\ \E i \in 1..Len(c.cls) : c.cls[i] = cls
+    \/ c.kind \in {"isinstance", "issubclass", "c_isinstance", "m_class"} /\ \E i \in 1..Len(c.cls) : c.cls[i] = cls
     \/ c.kind = "typeis" /\ Mentions(c.t, cls)
     \/ \E i \in 1..Len(c.subs) : CondMentions(c.subs[i], cls)
 
@@ -383,21 +417,26 @@ RECURSIVE CondTestsSubclassTuple(_)
 CondTestsSubclassTuple(c) == (c.kind = "issubclass" /\ Len(c.cls) > 1) \/ \E i \in 1..Len(c.subs) : CondTestsSubclassTuple(c.subs[i])
 Dev_BareTypeIssubclassTuple(V, c, o) == o.c = "type" /\ Mentions(V, "type") /\ CondTestsSubclassTuple(c)
 
+\* 6. is_overlapping (value.py:3381) is mutual assignability: a covariant Sequence[bool] / Iterable[Literal[1]] and the
+\*    invariant list[int] are assignable in neither direction and therefore judged disjoint, although a list of bools
+\*    inhabits both: the positive branch of the TypeIs test is emptied
+Dev_InvariantOverlap(V, c, o) ==
+    /\ o.c \in {"list", "set", "dict"} /\ o.items # << >> /\ CondTestsParametrised(c)
+    /\ \E g \in {"Sequence", "Iterable", "Mapping"} : Mentions(V, g) /\ IsInstance(o, g)
+
 DevClassOfLost(V, c, o) ==
     IF Dev_NumericPromotion(V, c, o) THEN "numeric-promotion-lost-by-isinstance"
     ELSE IF Dev_AbcTruthiness(V, c, o) THEN "abc-without-bool-always-true"
     ELSE IF Dev_EnumIterable(V, c, o) THEN "enum-instance-narrowed-as-iterable"
     ELSE IF Dev_VariadicTuple(V, c, o) THEN "variadic-tuple-removed-by-fixed-shape-typeis"
     ELSE IF Dev_BareTypeIssubclassTuple(V, c, o) THEN "plain-type-removed-by-issubclass-tuple"
+    ELSE IF Dev_InvariantOverlap(V, c, o) THEN "covariant-and-invariant-container-judged-disjoint"
     ELSE ""
 
 \* Gradual typing, not a defect: a bare generic class (list = list[Any], tuple = tuple[Any, ...]) is consistent with
 \* every parametrisation, so a TypeIs test against a parametrised type removes it from the negative branch
 \* (the same leniency is excluded from C04's soundness clause)
-RECURSIVE CondTestsParametrised(_), BareGenericClasses(_)
-CondTestsParametrised(c) ==
-    \/ c.kind = "typeis" /\ c.t.k \in {"generic", "seq"}
-    \/ \E i \in 1..Len(c.subs) : CondTestsParametrised(c.subs[i])
+RECURSIVE BareGenericClasses(_)
 BareGenericClasses(T) ==
     CASE T.k = "typed" -> IF NParams(T.c) > 0 THEN {T.c} ELSE {}
       [] T.k = "union" -> UNION {BareGenericClasses(T.ms[i]) : i \in 1..Len(T.ms)}
@@ -441,9 +480,11 @@ TinySpace == {Typed("int"), Typed("float"), Typed("bool"), Typed("object"), Type
               Union(<<Known(RED), Known(GREEN)>>), Typed("A")}
 SmallSpace == TinySpace \cup Small \cup OptionalEtc \cup SubclassTerms
               \cup {SeqT("tuple", << >>), SeqT("list", << >>), Generic("tuple", <<Typed("int")>>), SeqT("tuple", <<Many(Typed("int"))>>),
-                    SeqT("tuple", <<One(Typed("int")), Many(Typed("str"))>>), NewType("N", "int"), Typed("Sequence"), Typed("str")}
-\* MultiValuedValue flattens nested unions on construction: only flat unions are values
-FlatUnion(t) == t.k = "union" => \A i \in 1..Len(t.ms) : t.ms[i].k # "union"
+                    SeqT("tuple", <<One(Typed("int")), Many(Typed("str"))>>), NewType("N", "int"), Typed("Sequence"), Typed("str"),
+                    Typed("type"), Generic("Sequence", <<Typed("bool")>>)}
+\* MultiValuedValue flattens nested unions on construction and Union[X, X] is X: only flat unions of distinct members
+FlatUnion(t) == t.k = "union" => /\ \A i \in 1..Len(t.ms) : t.ms[i].k # "union"
+                                 /\ \A i, j \in 1..Len(t.ms) : i # j => t.ms[i] # t.ms[j]
 VSpaceOf(name) ==
     CASE name = "none" -> {}
       [] name = "tiny" -> TinySpace
@@ -496,7 +537,15 @@ ChooseDeep == AtomStage /\ InCompoundSpace /\ "deep" \in NKinds
               /\ \E a \in CompoundAtoms, b \in CompoundAtoms : a # b
                     /\ \E c \in {CNot(CAnd(a, b)), CNot(COr(a, b)), COr(CAnd(a, b), CIs(NONE, FALSE)), CAnd(COr(a, b), CNot(CIs(NONE, FALSE)))} : Pick(c)
 
-NNext == ChooseV \/ ChooseVCompound \/ ChooseIsinstance \/ ChooseIssubclass \/ ChooseTypeIs \/ ChooseTypeGuard \/ ChooseIs \/ ChooseEq \/ ChooseIn
+\* match statements: the subject is x, first case the pattern, second case `_` (the negative branch)
+MatchAtoms == {CMatchValue(l) : l \in {I0, I1, SA, RED, F15}} \cup {CMatchSingleton(l) : l \in {NONE, BT, BF}}
+              \cup {CMatchClass(c) : c \in {"int", "str", "bool", "float", "A", "B", "tuple", "list", "Color", "object"}}
+MatchOrAtoms == {CMatchValue(I1), CMatchValue(SA), CMatchValue(RED), CMatchSingleton(NONE), CMatchSingleton(BT), CMatchClass("int"),
+                 CMatchClass("str"), CMatchClass("tuple")}
+ChooseMatch == AtomStage /\ InAtomSpace /\ "match" \in NKinds /\ \E c \in MatchAtoms : Pick(c)
+ChooseMatchOr == AtomStage /\ InCompoundSpace /\ "match" \in NKinds /\ \E a \in MatchOrAtoms, b \in MatchOrAtoms : a # b /\ Pick(CMatchOr(a, b))
+
+NNext == ChooseMatch \/ ChooseMatchOr \/ ChooseV \/ ChooseVCompound \/ ChooseIsinstance \/ ChooseIssubclass \/ ChooseTypeIs \/ ChooseTypeGuard \/ ChooseIs \/ ChooseEq \/ ChooseIn
          \/ ChooseTruthy \/ ChooseLen \/ ChooseLegacyIsinstance \/ ChooseLegacyIsvalue \/ ChooseNot \/ ChooseAnd \/ ChooseOr \/ ChooseDeep
 
 NDone == stage = "done"
